@@ -528,22 +528,26 @@ class AtomicWriter(Generic[IOKindT]):
         exc_value: Optional[BaseException],
         tback: Optional[TracebackType],
     ) -> None:
-        # Delegate down to close the file like normal.
-        if self.temp is not None:
-            self.temp.__exit__(exc_type, exc_value, tback)
-            self.temp = None
-        if self._temp_name is None:
-            # Exit without enter?
-            return None
-        if exc_type is not None:
-            # An exception occurred, clean up.
-            try:
-                self._temp_name.unlink()
-            except FileNotFoundError:
-                pass
-        else:
-            # No exception, commit changes
-            self._temp_name.replace(self.filename)
+        committed = False
+        try:
+            # Delegate down to close the file like normal.
+            if self.temp is not None:
+                temp, self.temp = self.temp, None
+                temp.__exit__(exc_type, exc_value, tback)
+            if self._temp_name is None:
+                # Exit without enter?
+                return None
+            if exc_type is None:
+                # No exception, commit changes
+                self._temp_name.replace(self.filename)
+                committed = True
+        finally:
+            # An exception occurred in the body, or closing/renaming the file failed. Clean up.
+            if not committed and self._temp_name is not None:
+                try:
+                    self._temp_name.unlink()
+                except FileNotFoundError:
+                    pass
 
         return None  # Don't cancel the exception.
 
